@@ -232,6 +232,34 @@ func OracleC15() *Oracle {
 					}
 				}
 			}
+			// conversely every withdrawal / deposit of a pool is accompanied, in the same scope, by a burn /
+			// mint of that pool's share token (a committed exit whose shares are not burnt leaves
+			// unbacked share tokens behind)
+			for _, sc := range scopes {
+				for _, e := range sc.events {
+					if e.Type != "pool_exited" && e.Type != "pool_joined" {
+						continue
+					}
+					d := "amm/pool/" + attr(e, "pool_id")
+					want := banktypes.EventTypeCoinBurn
+					what := "exit_without_share_burn"
+					if e.Type == "pool_joined" {
+						want, what = banktypes.EventTypeCoinMint, "join_without_share_mint"
+					}
+					found := false
+					for _, e2 := range sc.events {
+						if e2.Type == want {
+							if cs, err := sdk.ParseCoinsNormalized(attr(e2, sdk.AttributeKeyAmount)); err == nil && cs.AmountOf(d).IsPositive() {
+								found = true
+							}
+						}
+					}
+					Clauses.Inc("deposit_withdrawal_matched_by_mint_burn")
+					if !found {
+						bad(what, "denom=amm/pool/N", fmt.Sprintf("%s of pool %s in %s without a matching share-token event in the same scope", e.Type, attr(e, "pool_id"), sc.name))
+					}
+				}
+			}
 			// supply delta must be fully explained by the mint/burn events seen
 			denoms := map[string]bool{}
 			for d := range pre.supply {
